@@ -5,6 +5,7 @@ import GqlVerif.Proofs.C04SurjectiveSerValid
 import GqlVerif.Proofs.C04RustExamples
 import GqlVerif.Proofs.C04RustCoercionWitness
 import GqlVerif.Proofs.C04DefaultsLit
+import GqlVerif.Proofs.C04DefaultsWitness
 open GqlVerif.C04
 #print axioms GqlVerif.C01.ser_fields_iff
 #print axioms variables_fields_are_declared
@@ -71,3 +72,18 @@ open GqlVerif.C04
 #print axioms GqlVerif.C04D.valueToLiteral_error_iff_literalOk
 #print axioms GqlVerif.C04D.defaultBodies_names
 #print axioms GqlVerif.C04D.defaultBodies_names_of_ok
+-- the literal denotes the declared default at the declared type (Proofs/C04Defaults{Eval,Core,Module,Witness}.lean)
+#print axioms GqlVerif.C04D.literal_core
+#print axioms GqlVerif.C04D.default_typechecks
+#print axioms GqlVerif.C04D.default_value_correct
+#print axioms GqlVerif.C04D.default_body_mem
+#print axioms GqlVerif.C04D.dx_typechecks
+#print axioms GqlVerif.C04D.dx_value_correct
+#print axioms GqlVerif.C04D.dx_run
+#print axioms GqlVerif.C04D.nx_wrong_kind
+#print axioms GqlVerif.C04D.nx_object_at_scalar
+#print axioms GqlVerif.C04D.nx_enum
+#print axioms GqlVerif.C04D.nx_missing_required
+#print axioms GqlVerif.C04D.nx_oneOf
+#print axioms GqlVerif.C04D.nx_unknown_field_dropped
+#print axioms GqlVerif.C04D.null_default_panics
